@@ -25,6 +25,7 @@ pub mod pegc {
     lit!(LSP, " ");
     lit!(LAB, "ab");
     lit!(LE, "é");
+    lit!(LC, "c");
     #[derive(Clone, Debug, Hash, PartialEq, Eq)]
     pub struct NStar;
     impl StringArrayWrapper for NStar { const CONTENT: &'static [&'static str] = &["*/", "b"]; }
@@ -88,6 +89,21 @@ pub mod pegc {
     /// leaves: ^"ab" ~ ('a'..'b' | ANY) ~ NEWLINE? ~ SkipChar<1>? ~ skip-until(*/ | b)
     pub type GLeaf<'i> = Seq4<S0<Insens<'i, LAB>>, S0<Choice2<CharRange<'a', 'b'>, ANY>>, S0<Option<NEWLINE>>, S0<Skip<'i, NStar>>>;
     pub type XLeaf = RSeq4<RInsens<LAB>, RChoice2<RRange<'a', 'b'>, RAny>, ROpt<RNewline>, RSkipUntil<NStar>, RNoSkip, 0>;
+    /// a failing alternative that pops and pushes the same number of entries: PUSH(a) ~ ((DROP ~ PUSH(b) ~ "c") | "b") ~ POP
+    pub type GBal<'i> = Seq3<S0<Push<A>>, S0<Choice2<Seq3<S0<DROP>, S0<Push<B>>, S0<Str<LC>>>, B>>, S0<POP<'i>>>;
+    pub type XBal = RSeq3<RPush<RStr<LA>>, RChoice2<RSeq3<RDrop, RPush<RStr<LB>>, RStr<LC>, RNoSkip, 0>, RStr<LB>>, RPop, RNoSkip, 0>;
+    /// an optional that pushes and then fails: PUSH(a) ~ (PUSH(a) ~ b)? ~ a? ~ POP
+    pub type GOptPush<'i> = Seq4<S0<Push<A>>, S0<Option<Seq2<S0<Push<A>>, S0<B>>>>, S0<Option<A>>, S0<POP<'i>>>;
+    pub type XOptPush = RSeq4<RPush<RStr<LA>>, ROpt<RSeq2<RPush<RStr<LA>>, RStr<LB>, RNoSkip, 0>>, ROpt<RStr<LA>>, RPop, RNoSkip, 0>;
+    /// bounded repetition whose iteration pushes before it can fail: (PUSH(a) ~ b){1,3} ~ PEEK_ALL
+    pub type GRepPush<'i> = Seq2<S0<RepMinMax<Seq2<S0<Push<A>>, S0<B>>, WS, 0, 1, 3>>, S0<PEEK_ALL<'i>>>;
+    pub type XRepPush = RSeq2<RRep<RSeq2<RPush<RStr<LA>>, RStr<LB>, RNoSkip, 0>, RNoSkip, 0, 1, 3>, RPeekAll, RNoSkip, 0>;
+    /// unbounded repetition whose iteration drops and pushes before failing: PUSH(a) ~ (DROP ~ PUSH(b) ~ "c")* ~ b? ~ POP
+    pub type GRepBal<'i> = Seq4<S0<Push<A>>, S0<RepMin<Seq3<S0<DROP>, S0<Push<B>>, S0<Str<LC>>>, WS, 0, 0>>, S0<Option<B>>, S0<POP<'i>>>;
+    pub type XRepBal = RSeq4<RPush<RStr<LA>>, RRep<RSeq3<RDrop, RPush<RStr<LB>>, RStr<LC>, RNoSkip, 0>, RNoSkip, 0, 0, { usize::MAX }>, ROpt<RStr<LB>>, RPop, RNoSkip, 0>;
+    /// predicates whose operand mutates the stack: PUSH(a) ~ &(POP ~ PUSH(b)) ~ !(DROP ~ "c") ~ POP
+    pub type GPredMut<'i> = Seq4<S0<Push<A>>, S0<Positive<Seq2<S0<POP<'i>>, S0<Push<B>>>>>, S0<Negative<Seq2<S0<DROP>, S0<Str<LC>>>>>, S0<POP<'i>>>;
+    pub type XPredMut = RSeq4<RPush<RStr<LA>>, RPos<RSeq2<RPop, RPush<RStr<LB>>, RNoSkip, 0>>, RNeg<RSeq2<RDrop, RStr<LC>, RNoSkip, 0>>, RPop, RNoSkip, 0>;
     /// nested repetition with optional and SOI/EOI: SOI ~ (a{1,2} ~ b?)* ~ EOI (skips between everything)
     pub type GNest = Seq3<S1<SOI>, S1<RepMin<Seq2<S1<RepMinMax<A, WS, 1, 1, 2>>, S1<Option<B>>>, WS, 1, 0>>, S1<EOI>>;
     pub type XNest = RSeq3<RSoi, RRep<RSeq2<RRep<RStr<LA>, RWS, 1, 1, 2>, ROpt<RStr<LB>>, RWS, 1>, RWS, 1, 0, { usize::MAX }>, REoi, RWS, 1>;
